@@ -44,6 +44,9 @@ def elt_configs(tier):
         # the loop is ended by somebody else; the destructor comes later (`pt` = a schedule point of the driver)
         ("user_quit_destroy_later", ["quit", "pt"], {}),
         ("functor_quit_destroy_later", ["q 1", "pt"], {1: ["quit"]}),
+        # ... and the destructor really after the thread function has returned (`wx` = sched::wait_exit on the child)
+        ("user_quit_wait_exit_destroy", ["quit", "wx"], {}),
+        ("functor_quit_wait_exit_destroy", ["q 1", "wx"], {1: ["quit"]}),
     ]
     if tier != "quick":
         cfgs += [("two_tasks_nested", ["q 1", "q 2"], {1: ["q 3", "r 4"], 2: ["quit"]})]
@@ -102,8 +105,12 @@ def gen_random_elt(rng, cid):
             scripts[t] = ["quit"]          # only the last task may quit: nothing is submitted to the loop after it
     if rng.random() < 0.15:
         acts.append("quit")
-    if rng.random() < 0.4:
+    quits = "quit" in acts or any("quit" in v for v in scripts.values())
+    r = rng.random()
+    if r < 0.3:
         acts.append("pt")          # lets the schedule run the child (possibly to its end) before the destructor
+    elif r < 0.55 and quits:
+        acts.append("wx")          # waits until the thread function has returned (only when somebody quits the loop)
     return looplib.mkcase(cid, "elt", schedlib.random_source(rng, pspur=rng.choice([0, 0, 10])) + " spur=%d" % rng.choice([0, 0, 2]),
                           prefix=["start"] + acts + ["destroy"], scripts=scripts, poller=rng.choice(["epoll", "poll"]),
                           pts=rng.choice([1, 1, 1, 0]), tag="random")
@@ -283,11 +290,24 @@ def run(chk, replay=None):
             corr_bad.append((c, "REJECT 0: use of the destroyed loop: implementation %s, model %s | -"
                              % (c.cid in impl_uaf, c.cid in model_uaf)))
     pool_bad = []
+    pool_steps = 0
     if pools:
-        outs, crashes = vlib.run_batch_parallel(model_elt, pools, timeout=600, pre=["bash", "-c", 'ulimit -s unlimited 2>/dev/null; exec "$0"'])
+        # the pool cases carry their trace: differential of the selection functions AND validation of start() / user
+        # tasks / ~EventLoopThreadPool against the extracted C05_PoolSysModel.pstep
+        mcases = []
+        for c in pools:
+            body = [l for l in all_runs[c.cid].lines if l and l != "end" and not l.startswith("case ")]
+            mcases.append(vlib.Case(c.cid, c.header, c.ops + ["trace"] + body))
+        outs, crashes = vlib.run_batch_parallel(model_elt, mcases, timeout=600, pre=["bash", "-c", 'ulimit -s unlimited 2>/dev/null; exec "$0"'])
         for c in pools:
             r = all_runs[c.cid]
-            m = dict((l.split()[0], l.split()[1:]) for l in outs.get(c.cid, [])[1:] if l and l != "end")
+            verdict = [l for l in outs.get(c.cid, []) if l.startswith(("accepted", "REJECT"))]
+            if not verdict or not verdict[-1].startswith("accepted"):
+                if not (r.crash or r.deadlock or r.steplimit or r.stuck is not None):
+                    corr_bad.append((c, verdict[-1] if verdict else "REJECT 0: the pool model runner failed | -"))
+            else:
+                pool_steps += int(verdict[-1].split()[1])
+            m = dict((l.split()[0], l.split()[1:]) for l in outs.get(c.cid, [])[1:] if l and l != "end" and not l.startswith(("accepted", "REJECT")))
             i = dict((l.split()[0], l.split()[1:]) for l in r.extra if l.split()[0] in ("next", "hash", "ops", "tail"))
             for key in ("next", "hash", "ops", "tail"):
                 if key not in i and key not in m:
@@ -313,8 +333,9 @@ def run(chk, replay=None):
                        "quit_mid, tf_exit; non-trivial = the schedule preempts at least once or quit() is called from inside the loop "
                        "thread (pool cases always count); distinct by (configuration, programs, realised choice list)")
     chk.cov["schedule_stats"] = stats
-    chk.cov["model_steps_validated"] = steps
-    chk.cov["traces_validated_against_impl"] = len(loops) + len(elts) - len(corr_bad)
+    chk.cov["model_steps_validated"] = steps + pool_steps
+    chk.cov["pool_system_steps_validated (C05_PoolSysModel.pstep)"] = pool_steps
+    chk.cov["traces_validated_against_impl"] = len(loops) + len(elts) + len(pools) - len(corr_bad)
     chk.cov["pool_runs_compared"] = len(pools) - len(pool_bad)
     chk.cov["use_after_destroy"] = {"runs where the implementation touches the destroyed loop": len(impl_uaf),
                                     "runs where the model predicts it on the same schedule": len(model_uaf)}
@@ -323,8 +344,9 @@ def run(chk, replay=None):
                                   "F-3 observed on the implementation": f3_impl}
     chk.cov["phase_s"] = {"impl": round(t_impl - t_start, 1), "oracle": round(t_or - t_impl, 1), "model": round(t_model - t_or, 1)}
     chk.add_obligation("trace validation: every step of the real EventLoop (kind=loop) under the controlled scheduler is accepted by the "
-                       "extracted C04_Model.step, every step of the real EventLoopThread (kind=elt) by the extracted C05_Model.estep "
-                       "(generated shapes), same observers (queue, eventfd, quit_, flags, loop_ != NULL, loop alive), same uses of a "
+                       "extracted C04_Model.step, every step of the real EventLoopThread (kind=elt) by the extracted C05_Model.estep, "
+                       "every step of the real EventLoopThreadPool's start() / tasks / destructor (kind=pool, N = 0..8) by the extracted "
+                       "C05_PoolSysModel.pstep (generated shapes), same observers (queue, eventfd, quit_, flags, loop_ != NULL, loop alive), same uses of a "
                        "destroyed loop", not corr_bad)
     chk.add_obligation("differential: real EventLoopThreadPool (N = 0..8) = extracted pool_run (model) = extracted gen_pool_run "
                        "(generated from the current source) on every call sequence", not pool_bad)
@@ -425,9 +447,10 @@ def run(chk, replay=None):
             small = vlib.Case(c.cid, schedlib.set_source(c.header, schedlib.list_source(sched)), c.ops)
             rr = RL.run_impl([small], jobs=1)[small.cid]
             v2 = R.run_model([small], {small.cid: rr})[small.cid]
-            names = ("C04_Model", "EventLoop") if kind_of(c) == "loop" else ("C05_Model", "EventLoopThread")
+            names = {"loop": ("C04_Model", "EventLoop"), "elt": ("C05_Model", "EventLoopThread"),
+                     "pool": ("C05_PoolSysModel", "EventLoopThreadPool")}[kind_of(c)]
             what.append("trace validation %s vs the real %s broken: %s (%d of %d traces rejected); the oracle holds on all runs"
-                        % (names[0], names[1], v2 if not v2.startswith("accepted") else v, len(corr_bad), len(loops) + len(elts)))
+                        % (names[0], names[1], v2 if not v2.startswith("accepted") else v, len(corr_bad), len(loops) + len(elts) + len(pools)))
             body += small.text() + "".join("# " + l + "\n" for l in rr.lines[-40:])
         p = chk.write_replay("broken_obligation.txt", "\n".join("# " + w for w in what) + "\n" + body +
                              ("\n--- coq log tail ---\n" + pr["log"][-3000:] if not pr["ok"] else ""))
